@@ -918,11 +918,23 @@ def real_dag_model_case(ctx, rng, it):
     G = nxg(nodes, edges)
     cons = []
     f = None
+    # partial coverage of the constraints (by number of edges or by length): a path then need not contain a whole constraint,
+    # so nothing may be derived from the constraints as if they were sequences every solution contains
+    partial = {}
+    r = rng.random()
+    if r < 0.2:
+        partial = {"subpath_constraints_coverage": rng.choice([0.5, 0.75])}
+    elif r < 0.45:
+        partial = {"subpath_constraints_coverage_length": rng.choice([0.5, 0.6, 1]), "length_attr": "length"}
+        for (u, v) in edges:
+            G[u][v]["length"] = rng.choice([1, 1, 2, 3])
+    full = partial.get("subpath_constraints_coverage", 1) == 1 and partial.get("subpath_constraints_coverage_length", 1) == 1
     try:
         if cls == "kPathCover":
-            if rng.random() < 0.5:
+            if rng.random() < 0.5 or partial:
                 cons = [[tuple(e) for e in c] for c in gen.subpaths(rng, nodes, edges, n=rng.randint(1, 2)) if c]
-            m = fp.kPathCover(G, k=rng.randint(1, 3), subpath_constraints=cons, additional_starts=starts, additional_ends=ends)
+            m = fp.kPathCover(G, k=rng.randint(1, 3), subpath_constraints=cons, additional_starts=starts, additional_ends=ends,
+                              **partial)
         else:
             starts, ends = [], []
             f, _, _ = gen.flow_from_paths(rng, nodes, edges, weights=(1, 1, 2), npaths=rng.randint(0, 1))
@@ -932,7 +944,7 @@ def real_dag_model_case(ctx, rng, it):
                 m = fp.kFlowDecomp(G, flow_attr="flow", k=rng.randint(1, 3), weight_type=int)
             else:
                 cons = [[tuple(e) for e in c] for c in gen.subpaths(rng, nodes, edges, n=rng.randint(1, 2)) if c]
-                m = fp.kMinPathError(G, flow_attr="flow", k=rng.randint(1, 3), weight_type=int, subpath_constraints=cons)
+                m = fp.kMinPathError(G, flow_attr="flow", k=rng.randint(1, 3), weight_type=int, subpath_constraints=cons, **partial)
     except Exception as e:
         ctx.rep.count("real." + cls, {"nodes": nodes, "edges": tl(edges)}, hist=["constructor raises " + type(e).__name__])
         return
@@ -942,12 +954,17 @@ def real_dag_model_case(ctx, rng, it):
     augE = [tuple(e) for e in aug["edges"]]
     safe = [ren_edges(ren, q) for q in (m.safe_lists or [])]
     X = ren_edges(ren, sorted(m.trusted_edges_for_safety or []))
-    cons_r = [ren_edges(ren, c) for c in cons]
+    cons_r = [ren_edges(ren, c) for c in cons] if (full or cls == "kFlowDecomp") else []
     base = {"nodes": nodes, "edges": tl(edges), "starts": starts, "ends": ends}
     inp = dict(aug, cls=cls, items=X, constraints=cons_r, base=base,
                flow=None if f is None else [[u, v, f[(u, v)]] for (u, v) in edges])
+    if not full and cls != "kFlowDecomp":
+        inp["partial_coverage"] = {k: v for k, v in partial.items()}
+        inp["constraints_given"] = [ren_edges(ren, c) for c in cons]
+        inp["lengths"] = [[u, v, G[u][v].get("length")] for (u, v) in edges]
     ctx.rep.count("real." + cls, inp, nontrivial=any(len(q) >= 2 for q in safe),
-                  hist=[f"safe_lists={min(len(safe), 6)}", "constraints" if cons else "no-constraints"])
+                  hist=[f"safe_lists={min(len(safe), 6)}", "constraints" if cons else "no-constraints"]
+                  + (["partial-coverage"] if (cons and not full and cls != "kFlowDecomp") else []))
     paths = all_st_paths(augE, "source", "sink")
     if cls == "kFlowDecomp":
         # safe_lists are the flow-safe paths of the caller's graph
